@@ -61,6 +61,9 @@ LOCAL_RULE = ("one evaluation = one seeded history over {register/unregister a m
               "deliver a bundle from a peer or submit it locally for one of the endpoints or for an endpoint nobody listens on, ping, a delivery running concurrently with a fetch of one mailbox "
               "(interleaved at the REST mailbox hooks in a seeded order), WebSocket client connect+register / disconnect, advance}; 0..4 mock agents, 0..4 REST clients, 0..3 WebSocket clients, 0..2 connected peers. Non-trivial = at least one delivery; distinct = distinct canonical log.")
 
+MUX_RULE = (" Second harness (a quarter of the workers): the real MuxAgent with 2..5 recording agents on 1..2 endpoints; history over {deliver, register, unregister, "
+            "deliver while one child is held before taking the message and another child unregisters / a new one registers during the blocked fan-out}.")
+
 C03_RULE = ("one evaluation = one seeded fully CRC-protected bundle (CRC-16/32 chosen per block incl. the primary block, dtn/ipn endpoints, optional hop-count / age / previous-node / unknown blocks, "
             "fragment or not, payload 0..300 bytes, up to 2 KiB in the thorough tier) sent by the real serialiser over a simulated MTCP stream into the real server connection handler; EVERY single bit "
             "of its encoding is flipped in turn (exhaustive per bundle: scheduler_steps counts the flips) plus 200 seeded bursts of <=16/<=32 bits inside one block. Non-trivial = every run; distinct = distinct canonical log.")
@@ -104,12 +107,16 @@ PROPS = {
                                             "'never loops for ever' for whole-message decoders is a 20 s real-time watchdog per decode (never fires on the unchanged tree; it does not influence a run that returns)",
                                             "the xz dictionary-size field is only driven up to 64 MiB (of 4 GiB): the recorded finding makes larger values kill the worker"],
             "required_probes": ["stream_cut", "stream_stall", "field_corrupt", "hostile_segment_mru", "datagram_cut", "kind_eid", "kind_admin", "kind_block", "kind_bundle", "family_frag", "family_cbor", "family_xz", "rest/build", "wam_type_2"]},
-    "C07": {"pkg": "pkg/routing", "binary": "routing.test", "harness": "local", "focus": "C07", "variants": [""],
-            "budget": {"quick": 60, "thorough": 1200}, "level": "exploration", "rule": LOCAL_RULE,
-            "real": ["routing.Core local delivery path, AgentManager", "agent.MuxAgent", "agent.RestAgent behind its gorilla/mux router (recorder requests)", "agent.WebSocketAgent (upgrade handler, per-client goroutines, inner MuxAgent) and agent.WebSocketAgentConnector as its client", "agent.PingAgent", "storage.Store"],
+    "C07": {"parts": [
+                {"pkg": "pkg/routing", "binary": "routing.test", "harness": "local", "variants": [""]},
+                {"pkg": "pkg/routing", "binary": "routing.test", "harness": "local", "variants": [""]},
+                {"pkg": "pkg/routing", "binary": "routing.test", "harness": "local", "variants": [""]},
+                {"pkg": "pkg/agent", "binary": "agent.test", "harness": "mux", "variants": [""]}],
+            "focus": "C07", "budget": {"quick": 60, "thorough": 1200}, "level": "exploration", "rule": LOCAL_RULE + MUX_RULE,
+            "real": ["routing.Core local delivery path, AgentManager", "agent.MuxAgent (also on its own, with held children, for registration changes during a fan-out)", "agent.RestAgent behind its gorilla/mux router (recorder requests)", "agent.WebSocketAgent (upgrade handler, per-client goroutines, inner MuxAgent) and agent.WebSocketAgentConnector as its client", "agent.PingAgent", "storage.Store"],
             "stub": ["application agents other than REST/ping: recording mock agents", "HTTP transport: httptest recorder, no sockets", "WebSocket transport: net.Pipe between the real WebSocketAgentConnector and the real WebSocketAgent.ServeHTTP (minimal hijackable ResponseWriter), no sockets, no http.Server", "convergence layers: scripted peers"],
             "assumptions": COMMON_ASSUME + ["sync.Map order inside RestAgent is not owned; the oracle demands delivery to all registered clients, which does not depend on it", "REST client uuids (crypto/rand) are canonicalised to client indices before they reach the scheduler or the log"],
-            "required_probes": ["rmw_interleave", "local_bundle_without_recipient", "delivered_report_seen"]},
+            "required_probes": ["rmw_interleave", "local_bundle_without_recipient", "delivered_report_seen", "ws_client_received", "unregister_during_fanout", "register_during_fanout"]},
     "C12": {"parts": [
                 {"pkg": "pkg/cla/mtcp", "binary": "mtcp.test", "harness": "mtcp", "variants": [""]},
                 {"pkg": "pkg/cla/bbc", "binary": "bbc.test", "harness": "bbc", "variants": [""]}],
@@ -142,7 +149,9 @@ PROPS = {
     "C05": node("C05", required=["send_ok", "retention_checked"]),
     "C06": node("C06", required=["send_ok", "copy_checked", "age_checked"]),
     "C13": node("C13", required=["send_ok"], variants=["epidemic", "spray", "binary_spray", "prophet", "dtlsr", "sensor-mule"]),
-    "C14": node("C14", required=["send_ok", "same_ms_submission"]),
+    "C14": dict(node("C14", required=["send_ok", "same_ms_submission", "concurrent_submission_burst"]),
+                parts=[{"pkg": "pkg/routing", "binary": "routing.test", "harness": "node", "variants": ALGOS},
+                       {"pkg": "pkg/routing", "binary": "routing.test", "harness": "idburst", "variants": [""], "burst": True, "env": {"GOMAXPROCS": "8"}}]),
     "C15": node("C15", required=["send_ok", "status_report_judged"]),
     "C19": dict(node("C19", variants=["prophet"], required=["send_ok", "prophet_emission_judged", "prophet_vector_imported", "prophet_ageing_tick", "prophet_forwarding_judged", "race_window"]),
                 parts=[{"pkg": "pkg/routing", "binary": "routing.test", "harness": "node", "variants": ["prophet"] * 3},
@@ -169,7 +178,7 @@ MANIFEST_TEXT = {
             "design_ref": "DESIGN.md §4 C04, §8.3", "note": "trusted: synctest quiescence as the 'blocked on the stream' observation, MemStats as allocation measure; messages are sampled, faults per message are enumerated; no coverage-guided mutation (outside this technique)", "technique": DST + " (fault enumeration per run)"},
     "C07": {"text": "Seeded register/unregister/deliver/fetch histories on the real Core + AgentManager + MuxAgent + RestAgent + PingAgent with mock agents and scripted peers; oracle from the registration set at each "
                     "delivery: every registered recipient of exactly that endpoint gets the bundle once (mock agents: hand-over count; REST clients: all fetches together return it exactly once), nobody else, "
-                    "never a peer, one pong per ping, a 'delivered' report and release from the store only after a hand-over; the deliver-during-fetch interleaving is forced at hooks. WebSocket clients (real agent + real connector over net.Pipe) connect, disconnect and receive between deliveries, not concurrently with them; such overlaps are not covered.",
+                    "never a peer, one pong per ping, a 'delivered' report and release from the store only after a hand-over; the deliver-during-fetch interleaving is forced at hooks. WebSocket clients (real agent + real connector over net.Pipe) connect, disconnect and receive between deliveries; an unregistration / registration that overlaps a fan-out is driven on the MuxAgent itself (held child), where the window is opened by the harness and the order inside it is left to the Go scheduler (on the unchanged tree the lock makes every order equivalent).",
             "design_ref": "DESIGN.md §4 C07", "note": NODE_NOTE + "; WebSocket clients only sequentially (no overlap of connect/disconnect with a delivery); exactly-once accounting on unique payloads instead of a linearizability checker", "technique": DST},
     "C12": {"text": "MTCP: real client and server handler on a simulated stream: the server's channel carries exactly a prefix of the sent bundles, in order and identical, keep-alives invisible, every send invoked "
                     "after the cut fails and the peer is reported gone. BBC: real connectors on a simulated broadcast medium: the clean train (fragment size <= MTU, consecutive sequence numbers, start/end marks, "
@@ -200,7 +209,9 @@ MANIFEST_TEXT = {
                     "never again to a peer after a success reported before the dispatch was triggered (lineage of the parked task gives the trigger), per algorithm.",
             "design_ref": "DESIGN.md §4 C13", "note": NODE_NOTE, "technique": DST},
     "C14": {"text": "Seeded groups of same-millisecond / zero-time / concurrent submissions through Core.SendBundle and the agent manager; oracle: pairwise distinct "
-                    "wire IDs, one store record per submission, store key = wire ID.",
+                    "wire IDs, one store record per submission, store key = wire ID. The 'submitted concurrently' clause additionally has a burst harness: 2..12 submitters push 50..300 bundles each through the real "
+                    "Core.SendBundle at one fake instant with the hooks off (the window is the simulator's, the order inside it the Go scheduler's); all IDs must be distinct and each bundle filed under its ID. On the "
+                    "unchanged tree every order satisfies this; a change that only breaks true overlaps is found with a probability that grows with the burst size, and confirmed by repeated fresh-process runs.",
             "design_ref": "DESIGN.md §4 C14", "note": NODE_NOTE, "technique": DST},
     "C19": {"text": "Seeded histories of encounters, ageing ticks on the fake clock and summary vectors from scripted peers (constants and values drawn from [0,1] incl. 0, 1, denormals); "
                     "the node's vector is read from every metadata bundle it emits: range [0,1], per-key monotonicity between emissions (no ageing => no decrease; only ageing => no increase), "
